@@ -47,7 +47,19 @@ def parseWorldImpl? (s : String) : Option (List Nat × List Nat) :=
   | [a, b] => do pure (← natList? a.trimAscii.toString, ← natList? b.trimAscii.toString)
   | _ => none
 
-def step (st : NS) (op impl : String) : NS × StepOut :=
+/-- Driver state: the model state plus the pids the IMPLEMENTATION reported as ready
+(`is_elected = true`) since the last state-changing op. -/
+structure DS where
+  ns : NS
+  readyImpl : List Nat := []
+
+/-- oracle: among sessions the implementation reports ready at one instant, at most one
+per peer is server-side (accepting node keeps exactly one; `commit_leaves_elected_set`). -/
+def readyOk (st : NS) (ready : List Nat) : Bool :=
+  let rs := st.sessions.filter (fun s => ready.contains s.id && s.isServer)
+  rs.all (fun a => rs.all (fun b => a.id == b.id || a.peerName != b.peerName || a.peerName == some st.thisName))
+
+def stepNS (st : NS) (op impl : String) : NS × StepOut :=
   match words op with
   | ["elect", this, peer, cs] =>
     match parseCands? cs with
@@ -72,6 +84,31 @@ def step (st : NS) (op impl : String) : NS × StepOut :=
         | none => ["unparsable"]
       (st, { model := s!"{showNats eA} | {showNats eB}", oracle := orc, nontrivial := decide (cs.length > 1) })
     | none => (st, { model := "bad-op" })
+  | ["e2e", nameA, nameB, _k, dirs] =>
+    -- outcome-only op: the nonces are drawn by the implementation, so the model does not
+    -- predict WHICH same-direction duplicate survives; the oracle judges the outcome.
+    let ds := dirs.toList.map (· == 'a')
+    let parseIdx (s : String) : Option (List Nat) :=
+      if s == "-" then some [] else (splitOnChar s ',').mapM (fun x => (x.drop 1).toString.toNat?)
+    let (orc, dirOk) := match impl.splitOn "|" with
+      | [ka, kb, ra, rb] =>
+        match parseIdx ka, parseIdx kb, parseIdx ra, parseIdx rb with
+        | some ka, some kb, some ra, some rb =>
+          (if e2eOk ds.length ka kb ra rb then [] else ["e2e-not-one-same-link"],
+           e2eDirectionAsModel (nameOrd nameB nameA) ds ka)
+        | _, _, _, _ => (["unparsable"], true)
+      | _ => (["unparsable"], true)
+    (st, { model := if dirOk then impl else "model: survivor must be a dial of the node whose name sorts last",
+           oracle := orc, nontrivial := decide (ds.length > 1) })
+  | "ni" :: what :: _ =>
+    -- paired non-interference experiment (theorems `unauthenticated_cannot_influence_*`):
+    -- the implementation's answer with an unauthenticated name-spoofing session present
+    -- must equal its answer without it.
+    if what == "begin" then (st, { model := "ok" }) else
+    let orc := match impl.splitOn " | " with
+      | [a, b] => if a == b then [] else ["unauthenticated-session-influenced-" ++ what]
+      | _ => ["unparsable"]
+    (st, { model := impl, oracle := orc, nontrivial := what == "commit" })
   | ["ns", this] => ({ thisName := this, sessions := [] }, { model := "ok" })
   | ["open", srv, pid] =>
     match parseBool? srv, pid.toNat? with
@@ -113,7 +150,17 @@ def step (st : NS) (op impl : String) : NS × StepOut :=
     (st, { model := showNats (sortNats ((st.sessions.filter (·.auth)).map (·.id))) })
   | _ => (st, { model := "bad-op" })
 
+def step (ds : DS) (op impl : String) : DS × StepOut :=
+  let (ns', out) := stepNS ds.ns op impl
+  match words op with
+  | ["elected", pid] =>
+    let ready := if impl == "true" then (pid.toNat?.map (· :: ds.readyImpl)).getD ds.readyImpl else ds.readyImpl
+    let orc := if readyOk ns' ready then [] else ["two-ready-sessions-for-one-peer-on-acceptor"]
+    ({ ns := ns', readyImpl := ready }, { out with oracle := out.oracle ++ orc })
+  | "visible" :: _ | "checkc" :: _ | "checks" :: _ | "elect" :: _ | "world" :: _ | "e2e" :: _ | "ni" :: _ => ({ ds with ns := ns' }, out)
+  | _ => ({ ns := ns', readyImpl := [] }, out)
+
 def run (ops impl : Array String) : IO Tally :=
-  replay ({ thisName := "", sessions := [] } : NS) step ops impl
+  replay ({ ns := { thisName := "", sessions := [] } } : DS) step ops impl
 
 end Driver.C18
